@@ -18,7 +18,7 @@ def finalize(R, I, hops):
         # a successful cycle whose trusted root is not the reference walk's result, or that adopted a hop not doubly signed / not newer
         shipped, cyc, f = C03.build_history(sums, 1, 'w')
         c = cyc[0]
-        bad = [c.root != ref_final(c, shipped)]
+        bad = [c.root != ref_final(c, shipped), z3.Not(V(shipped, shipped))]
         cur = shipped
         for i, h in enumerate(c.hops):
             on = z3.Or([c.root == x for x in c.hops[i:]])
@@ -50,6 +50,9 @@ def finalize(R, I, hops):
         return {'shipped': 0, 'serve_roots': serve, 'consistent': False, 'safe': False, 'timestamp': {'id': 10, 'version': 1, 'signers': [1]}, 'snapshot': {'id': 11, 'version': 1, 'signers': [2]},
                 'targets': {'id': 12, 'version': 1, 'signers': [3]}, 'ts_meta': {'version': 1}, 'sn_meta': {'version': 1}}
     directed = [('a hop from version 1 to 2000 exhausts the budget of 1024 versions while 2001.root.json is on offer', [root_d(1, [0]), root_d(2000, [0]), root_d(2001, [0])], {'2': 1, '2001': 2}),
+                ('shipped root 1 not signed by its own root key (signed by an unrelated key only), 2.root.json doubly signed and on offer', [root_d(1, [5]), root_d(2, [0])], {'2': 1}),
+                ('shipped root 1 without any signature, chain 1 -> 2 -> 3 on offer', [root_d(1, []), root_d(2, [0]), root_d(3, [0])], {'2': 1, '3': 2}),
+                ('shipped root 1 without its own signature, nothing newer on offer', [root_d(1, [5])], {}),
                 ('plain chain 1 -> 2 -> 3 -> 4, then nothing', [root_d(1, [0]), root_d(2, [0]), root_d(3, [0]), root_d(4, [0])], {'2': 1, '3': 2, '4': 3}),
                 ('chain 1 -> 2 (key rotated 0 -> 4, doubly signed) -> 3 signed by the new key only', [root_d(1, [0]), root_d(2, [0, 4], rk=4), root_d(3, [4], rk=4)], {'2': 1, '3': 2})]
     for desc, roots, serve in directed:
